@@ -183,10 +183,18 @@ def centLines (hs : List Str) : List Str → List Str
     (addMarker l ++ hs.flatMap openTok) ::
       ((l2 :: ls).dropLast ++ [addMarker ((l2 :: ls).getLast (by simp)) ++ hs.flatMap closeTok])
 
+/-- `not line.strip()`. -/
+def blankPy (l : Str) : Bool := l.all isSpacePy
+
+/-- The two `while lines and not lines[i].strip(): del lines[i]` loops: blank lines left at the ends
+once the isolated hints are gone are not numbered. -/
+def trimBlank (ls : List Str) : List Str := ((ls.dropWhile blankPy).reverse.dropWhile blankPy).reverse
+
 def centrifugate (src : Str) : Except Err Str :=
   let p := scanIsolated (splitNL src)
-  if p.2 = [] then .ok (joinNL p.1)
-  else match p.1 with
+  let kept := trimBlank p.1
+  if p.2 = [] then .ok (joinNL kept)
+  else match kept with
     | [] => .error .indexError
     | ls => .ok (joinNL (centLines (sortDedup p.2) ls))
 
